@@ -32,6 +32,7 @@ def rules(ctx):
     c162(ctx)
     c163(ctx)
     c164(ctx)
+    c165(ctx)
 
 
 ENC = re.compile(r"::(append_to|extend|extend_with_key|extend_field_number|field_number|append|builder|build|finish|tuple_key|unit|bytes|string|"
@@ -297,3 +298,42 @@ def c164(ctx):
     cs = K.callers_of(ctx, r"^tuple_key::reverse_encoding$", crates=("tuple_key",))
     ctx.check(R, "tuple_key", "appliers", len(cs) >= 2, "reverse_encoding is applied by the encoder and the parser (%s)" % sorted(cs),
               "reverse_encoding has %d callers" % len(cs))
+
+
+# ------------------------------------------------------------------------------------------------
+# C16.5 the width function of the compact format, tabulated exactly
+
+def c165(ctx):
+    R = "C16.5"
+    ctx.declare(R, "tuple_key2 integers are written with exactly their number of significant bytes: the width function is tabulated "
+                   "over the whole u64 domain (it is piecewise constant) and compared with ceil(bits / 8)")
+    from blue import pwc
+    f = ctx.fn(R, "tuple_key2::minimal_u64_len")
+    if not f:
+        return
+    try:
+        tab = pwc.tabulate(f)
+    except pwc.NotInClass as e:
+        ctx.violate(R, f, "width-table", "minimal_u64_len cannot be tabulated (%s); the order of integer encodings across width boundaries is not decided" % e)
+        return
+    want = [(0, 0, 0)] + [(1 << (8 * (k - 1)), (1 << (8 * k)) - 1, k) for k in range(1, 9)]
+    bad = None
+    if tab != want:
+        for (lo, hi, v) in tab:
+            for (wl, wh, wv) in want:
+                if lo <= wh and wl <= hi and v != wv:
+                    bad = (max(lo, wl), min(hi, wh), v, wv)
+                    break
+            if bad:
+                break
+    ctx.check(R, f, "width-table", tab == want,
+              "minimal_u64_len(v) = number of significant bytes of v for every u64 (9 intervals, boundaries at powers of 256)",
+              "minimal_u64_len is %s on [%#x, %#x] where values have %s significant bytes: the tag encodes the width, so integers on the two "
+              "sides of this band compare by the wrong width and sort out of order (a width that is too small would also truncate the "
+              "payload)" % ((bad[2], bad[0], bad[1], bad[3]) if bad else ("?", 0, 0, "?")))
+    # both directions use the same function: encoder and canonical-form check of the decoder
+    users = K.callers_of(ctx, r"^tuple_key2::minimal_u64_len$", crates=("tuple_key2",))
+    enc = [k for k in users if re.search(r"push_|encode|append", k)]
+    dec = [k for k in users if re.search(r"decode|parse", k)]
+    ctx.check(R, "tuple_key2", "width-users", bool(enc) and bool(dec), "the encoder (%d fns) and the decoder's canonical-width check (%d fns) share it" % (len(enc), len(dec)),
+              "minimal_u64_len is no longer shared by encoder and decoder: %s" % sorted(users))
